@@ -16,10 +16,13 @@ CHECKS = {
         "parts": [
             {"part": "alloc-exh", "pkg": KS, "test": "TestVerif_C18_AllocExh", "kind": "enum", "quick": 1, "thorough": 1, "shards": 1},
             {"part": "alloc-256", "pkg": KS, "test": "TestVerif_C18_Alloc256", "quick": 3000, "thorough": 40000},
+        {"part": "alloc-256-gofuzz", "pkg": KS, "fuzz": "FuzzVerif_C18_Alloc256", "fuzz_seconds": 30, "quick": 0, "thorough": 0, "test": "FuzzVerif_C18_Alloc256"},
             {"part": "regions", "pkg": KS, "test": "TestVerif_C18_Regions", "quick": 3000, "thorough": 40000},
+        {"part": "regions-gofuzz", "pkg": KS, "fuzz": "FuzzVerif_C18_Regions", "fuzz_seconds": 45, "quick": 0, "thorough": 0, "test": "FuzzVerif_C18_Regions"},
             {"part": "prefixops-exh", "pkg": KS, "test": "TestVerif_C18_PrefixOpsExh", "kind": "enum", "quick": 1, "thorough": 1, "shards": 1},
             {"part": "subtract-exh", "pkg": KS, "test": "TestVerif_C18_SubtractExh", "kind": "enum", "quick": 1, "thorough": 1, "shards": 1},
             {"part": "prefixops-rand", "pkg": KS, "test": "TestVerif_C18_PrefixOpsRand", "quick": 2000, "thorough": 30000},
+        {"part": "prefixops-rand-gofuzz", "pkg": KS, "fuzz": "FuzzVerif_C18_PrefixOpsRand", "fuzz_seconds": 45, "quick": 0, "thorough": 0, "test": "FuzzVerif_C18_PrefixOpsRand"},
             {"part": "shortest-covered", "pkg": KS, "test": "TestVerif_C18_ShortestCovered", "quick": 3000, "thorough": 40000},
         ],
     },
@@ -37,7 +40,9 @@ CHECKS["C19"] = {
                   "prefix they are enqueued under (documented precondition). Crash points inside Persist are not asserted (the property does not define a partial persist).",
     "parts": [
         {"part": "provide-queue", "pkg": Q, "test": "TestVerif_C19_ProvideQueue", "quick": 4000, "thorough": 60000},
+        {"part": "provide-queue-gofuzz", "pkg": Q, "fuzz": "FuzzVerif_C19_ProvideQueue", "fuzz_seconds": 45, "quick": 0, "thorough": 0, "test": "FuzzVerif_C19_ProvideQueue"},
         {"part": "reprovide-queue", "pkg": Q, "test": "TestVerif_C19_ReprovideQueue", "quick": 4000, "thorough": 60000},
+        {"part": "reprovide-queue-gofuzz", "pkg": Q, "fuzz": "FuzzVerif_C19_ReprovideQueue", "fuzz_seconds": 45, "quick": 0, "thorough": 0, "test": "FuzzVerif_C19_ReprovideQueue"},
     ],
 }
 
@@ -179,6 +184,7 @@ CHECKS["C09"] = {
     "level_note": "Transport = in-memory pipe with msgio framing exactly as on a libp2p stream; message size limit taken from network.MessageSizeMax; the closer-peer clauses are judged against the node's own routing table and peerstore.",
     "parts": [
         {"part": "server", "pkg": ROOT, "test": "TestVerif_C09_Server", "quick": 1500, "thorough": 25000},
+        {"part": "server-gofuzz", "pkg": ROOT, "fuzz": "FuzzVerif_C09_Server", "fuzz_seconds": 90, "quick": 0, "thorough": 0, "test": "FuzzVerif_C09_Server"},
     ],
 }
 
@@ -192,6 +198,7 @@ CHECKS["C10"] = {
     "level_note": "Responses are always wire-reachable (marshal -> bytes -> unmarshal); 'permanently block' is decided as bounded virtual time under synctest; the transport is the in-memory pipe model.",
     "parts": [
         {"part": "messenger", "pkg": PBP, "test": "TestVerif_C10_Messenger", "quick": 4000, "thorough": 60000},
+        {"part": "messenger-gofuzz", "pkg": "./pb/", "fuzz": "FuzzVerif_C10_Messenger", "fuzz_seconds": 60, "quick": 0, "thorough": 0, "test": "FuzzVerif_C10_Messenger"},
         {"part": "sender-bytes", "pkg": "./internal/net/", "test": "TestVerif_C10_SenderBytes", "quick": 1000, "thorough": 15000},
         {"part": "lookup-flood", "pkg": "./", "test": "TestVerif_C10_LookupFlood", "quick": 1000, "thorough": 15000},
     ],
@@ -207,6 +214,7 @@ CHECKS["C11"] = {
     "level_note": "Virtual time fixes the order of every reply, timeout and cancellation; three interleaving points inside the per-peer sender bookkeeping are owned through the verif hook (drawn pauses), others below the level of blocking operations are not controlled; the in-memory pipe (optionally with blocking writes) stands in for a libp2p stream.",
     "parts": [
         {"part": "message-sender", "pkg": NETP, "test": "TestVerif_C11_MessageSender", "quick": 2000, "thorough": 30000},
+        {"part": "message-sender-gofuzz", "pkg": NETP, "fuzz": "FuzzVerif_C11_MessageSender", "fuzz_seconds": 60, "quick": 0, "thorough": 0, "test": "FuzzVerif_C11_MessageSender"},
     ],
 }
 
